@@ -138,6 +138,10 @@ fn check_logs(inst: &mut Inst, world: &World, topic_len: usize) -> Vec<(String, 
     ranges.push((Some(0), Some(5)));
     ranges.push((Some(0), Some(6)));
     ranges.push((Some(h), Some(h + 3)));
+    // ranges that start inside the chain and end far beyond the head: still wider than six blocks, still refused
+    ranges.push((Some(h.saturating_sub(4)), Some(h + 5)));
+    ranges.push((Some(h.saturating_sub(3)), Some(1u64 << 40)));
+    ranges.push((Some(h.saturating_sub(5)), Some(h + 1)));
     ranges.push((Some(h + 1), Some(h + 2)));
     ranges.push((Some(h), Some(h.saturating_sub(1))));
     ranges.push((None, Some(h)));
@@ -175,8 +179,12 @@ fn check_logs(inst: &mut Inst, world: &World, topic_len: usize) -> Vec<(String, 
         let reversed = to < from;
         let too_wide = !reversed && to - from > 5;
         let in_range: Vec<Value> = if reversed || too_wide { vec![] } else { (from..=to).flat_map(|b| logs_of(b)).collect() };
-        for a in &addrs {
-            for tf in tfs.iter() {
+        for (ai, a) in addrs.iter().enumerate() {
+            for (ti, tf) in tfs.iter().enumerate() {
+                // a range that has to be refused (or is not prescribed) is refused whatever the filter: a few filters
+                if (reversed || too_wide) && (ai > 1 || ti > 5) {
+                    continue;
+                }
                 let mut filter = serde_json::Map::new();
                 if let Some(f) = ftext {
                     filter.insert("fromBlock".into(), json!(f));
